@@ -118,15 +118,17 @@ Proof.
   destruct SG as (sg & S1 & S2 & S3). destruct sl as [neg l2]. cbn [fst snd] in *.
   destruct (digit_run_split l2) as (ds & D1 & D2 & D3 & D4 & D5).
   destruct (digit_run 10 l2) as [|d0 dr] eqn:DR; [discriminate|].
-  intros H. inversion H; subst v r; clear H.
-  exists ws, sg, ds. repeat split.
-  - rewrite A, S1. rewrite D1 at 1. reflexivity.
-  - exact B.
-  - exact S2.
-  - intros ->. cbn in D3. lia.
-  - exact D2.
-  - rewrite D4, digits_value_map, S3. reflexivity.
-  - exact D5.
+  intros H. injection H as Hv Hr. subst v r. cbn [lenN] in *.
+  exists ws, sg, ds.
+  split; [rewrite A, S1; rewrite D1 at 1; reflexivity|].
+  split; [exact B|]. split; [exact S2|].
+  split; [intros ->; cbn [lenN] in D3; lia|].
+  split; [exact D2|].
+  assert (V : digits_value 10 dr d0 = dec_value ds).
+  { transitivity (digits_value 10 (d0 :: dr) 0).
+    - unfold digits_value. cbn [fold_left]. f_equal.
+    - rewrite D4. apply digits_value_map. }
+  split; [rewrite V, S3; reflexivity|exact D5].
 Qed.
 
 (* ================================================================== *)
